@@ -254,7 +254,7 @@ var denyDump = map[string]bool{
 	"Next": true, "Abort": true, "Reset": true, "ResetWithoutConn": true, "ResetBody": true, "ResetConnectionClose": true, "ResetSkipNormalize": true, "ResetSkipHeader": true, "Exile": true, "Flush": true,
 	"RemoveMultipartFormFiles": true, "DisableNormalizing": true, "SetConnectionClose": true, "CloseBodyStream": true, "NotModified": true, "NotFound": true, "Done": true, "Err": true, "Deadline": true,
 	"AbortWithStatus": true, "LocalAddr": true, "GetBufValue": true, "SetNoDefaultContentType": true, "URI": true, "PostArgs": true, "QueryArgs": true, "Trailer": true, "BodyGunzip": true, "BodyE": true,
-	"GetRequest": true, "GetResponse": true, "IsExiled": true,
+	"GetRequest": true, "GetResponse": true, "IsExiled": true, "HandlerName": true,
 }
 
 var dateRe = regexp.MustCompile(`Date: [^\r\n]*`)
